@@ -63,7 +63,7 @@ if ck != "nohook":
     except Exception:
         pass
 before = set(sys.modules)
-sys.dont_write_bytecode = False
+sys.dont_write_bytecode = bool(cfg.get("nowrite"))  # "nowrite" runs behave like `python -B`: the cache is still READ
 log = []
 hook = None
 try:
@@ -137,8 +137,17 @@ print("C18RESULT " + json.dumps({"state": state, "log": log, "cache": sorted(os.
 # ----------------------------------------------------------------------------------------------------
 # history = {"link": ..., "steps": [ ("run", hooked(list), checker, order(list)) | ("edit",) ]}
 # ----------------------------------------------------------------------------------------------------
-def run_(hooked, checker, order):
-    return ["run", sorted(hooked) if checker != "nohook" else [], checker, list(order)]
+def run_(hooked, checker, order, **opts):
+    """opts: nowrite=True -> the run keeps sys.dont_write_bytecode (python -B; caches are read, not written);
+             disable=True -> the run has JAXTYPING_DISABLE=1 (instrumented, but no check is performed)"""
+    st = ["run", sorted(hooked) if checker != "nohook" else [], checker, list(order)]
+    if opts:
+        st.append({k: bool(v) for k, v in sorted(opts.items()) if v})
+    return st
+
+
+def opts_of(st):
+    return st[4] if len(st) > 4 else {}
 
 
 EDIT = ["edit"]
@@ -150,13 +159,14 @@ def describe(h):
         if st[0] == "edit":
             parts.append("edit-b")
         else:
-            parts.append(("nohook" if st[2] == "nohook" else "hook(" + "+".join(st[1]) + ";" + CK_SHORT[st[2]] + ")") + "import(" + ",".join(st[3]) + ")")
+            parts.append(("nohook" if st[2] == "nohook" else "hook(" + "+".join(st[1]) + ";" + CK_SHORT[st[2]] + ")") + "import(" + ",".join(st[3]) + ")" + "".join("[" + k + "]" for k in sorted(opts_of(st))))
     return "|".join(parts)
 
 
 def oracle_run(link, step, b_version):
     """What the CURRENT source and CURRENT configuration call for -- nothing else."""
-    _, hooked, checker, order = step
+    _, hooked, checker, order = step[:4]
+    disabled = bool(opts_of(step).get("disable"))
     loaded = []
 
     def load(m):
@@ -171,14 +181,14 @@ def oracle_run(link, step, b_version):
         load("b")
     exp = {}
     for m in loaded:
-        kind = KIND[checker] if (checker != "nohook" and m in hooked) else "plain"
+        kind = ("nocheck" if disabled else KIND[checker]) if (checker != "nohook" and m in hooked) else "plain"
         exp[m] = {"kind": kind, "const": 1 if m == "a" else 100 + b_version}
     return exp
 
 
 def nested_unhooked_b(link, step):
     """Shape of the known mechanism F2: b is NOT hooked but is first imported while the hooked a's body executes."""
-    _, hooked, checker, order = step
+    _, hooked, checker, order = step[:4]
     if checker == "nohook" or "a" not in hooked or "b" in hooked or link not in ("module", "func-at-import"):
         return False
     return "a" in order and (("b" not in order) or order.index("a") < order.index("b"))
@@ -220,6 +230,16 @@ def curated(tier):
     add("module", run_("a", TG, "a"), EDIT, run_("a", TG, "a"))
     add("none", run_("", "nohook", "b"), EDIT, run_("b", BT, "b"))
     add("none", run_("b", BT, "b"), EDIT, run_("", "nohook", "b"))
+    # --- runs that read but do not write the cache (python -B) after runs that wrote it, and the converse
+    add("none", run_("", "nohook", ["a", "b"]), run_("ab", TG, ["a", "b"], nowrite=True))
+    add("module", run_("", "nohook", ["a"]), run_("ab", BT, ["a"], nowrite=True), run_("ab", BT, ["a"]))
+    add("none", run_("ab", TG, ["a", "b"]), run_("", "nohook", ["a", "b"], nowrite=True))
+    add("none", run_("b", TG, "b"), run_("b", BT, "b", nowrite=True))
+    # --- the global disable switch is a run-time switch: it must not decide what lands in the cache
+    add("none", run_("ab", TG, ["a", "b"], disable=True), run_("ab", TG, ["a", "b"]))
+    add("module", run_("ab", BT, ["a"], disable=True), run_("ab", BT, ["a"]), run_("ab", BT, ["a"], disable=True))
+    add("none", run_("b", None, "b", disable=True), run_("b", None, "b"))
+    add("none", run_("ab", TG, ["a", "b"]), run_("ab", TG, ["a", "b"], disable=True))
     if tier == "thorough":
         for X in (TG, BT, None):
             for link in ("module", "func-at-import"):
@@ -241,13 +261,15 @@ def random_history(rng):
         ck = rng.choice(["nohook", TG, BT, None, TG, None])
         hooked = rng.choice(["a", "b", "ab"])
         order = rng.choice([["a", "b"], ["b", "a"], ["a"], ["b"]])
-        steps.append(run_(hooked, ck, order))
+        steps.append(run_(hooked, ck, order, nowrite=rng.random() < 0.15, disable=rng.random() < 0.15))
     return {"link": link, "steps": steps}
 
 
 # ----------------------------------------------------------------------------------------------------
-def child_env(repo):
-    env = {k: v for k, v in os.environ.items() if k not in ("PYTHONDONTWRITEBYTECODE", "PYTHONSTARTUP", "PYTHONPYCACHEPREFIX")}
+def child_env(repo, disable=False):
+    env = {k: v for k, v in os.environ.items() if k not in ("PYTHONDONTWRITEBYTECODE", "PYTHONSTARTUP", "PYTHONPYCACHEPREFIX", "JAXTYPING_DISABLE")}
+    if disable:
+        env["JAXTYPING_DISABLE"] = "1"
     env["PYTHONPATH"] = repo
     env["JAX_PLATFORMS"] = "cpu"
     env["PYTHONHASHSEED"] = "0"
@@ -279,8 +301,8 @@ def play(repo, h, keep=False):
                 ver += 1
                 put("b.py", b_src(ver), base + 10 * ver)  # constant, size and mtime (+10 s) all change
                 continue
-            cfg = {"src": src, "hooked": st[1], "checker": st[2], "order": st[3], "link": h["link"]}
-            p = subprocess.run([sys.executable, "-B", child], input=json.dumps(cfg), capture_output=True, text=True, env=child_env(repo), cwd=d, timeout=300)
+            cfg = {"src": src, "hooked": st[1], "checker": st[2], "order": st[3], "link": h["link"], "nowrite": bool(opts_of(st).get("nowrite"))}
+            p = subprocess.run([sys.executable, "-B", child], input=json.dumps(cfg), capture_output=True, text=True, env=child_env(repo, bool(opts_of(st).get("disable"))), cwd=d, timeout=300)
             line = next((ln for ln in p.stdout.splitlines() if ln.startswith("C18RESULT ")), None)
             res = json.loads(line[len("C18RESULT "):]) if line else {"crash": (p.stderr or p.stdout)[-600:]}
             res["expected"] = oracle_run(h["link"], st, ver)
@@ -361,7 +383,7 @@ def main():
     bound = (f"{a.tier}: {len(hist)} histories ({ncur} curated + {nrand} seeded random), {nruns} runs, each run a fresh `python -B` subprocess that pre-imports jaxtyping + the checker with bytecode writing off and then sets "
              "sys.dont_write_bytecode=False (env PYTHONDONTWRITEBYTECODE removed) for the imports under test; one temp dir per history holding a.py, b.py and their __pycache__. "
              "Run space: hook none | hook {a}|{b}|{a,b} x checker {typeguard.typechecked, beartype.beartype, None}; import order (a,b)|(b,a)|(a)|(b); link a->b: module-level import | import inside a function called after "
-             "import | inside a function called at import time | none; optional edit of b between runs (constant, size and mtime+10s change). History lengths 2-3 (curated), 2-4 (random)." + note
+             "import | inside a function called at import time | none; optional edit of b between runs (constant, size and mtime+10s change); per run optionally `nowrite` (cache read but not written, as under python -B) and `disable` (JAXTYPING_DISABLE=1: hooked modules are instrumented, calls unchecked). History lengths 2-3 (curated), 2-4 (random)." + note
              + (" late-foreign=" + str(late_foreign) if late_foreign else ""))
     rule = ("per run and loaded module: kind in {plain, nocheck, typeguard, beartype} from calling f(3) / f('s') and inspecting __wrapped__ / `jaxtyping` global / the TypeCheckError cause chain, and the module constant; "
             "oracle = current configuration (hooked and checker) and current source only; runs after the first are the non-trivial ones (a cache exists). Failures on module b whose history contains a run where the un-hooked b is "
